@@ -443,3 +443,85 @@ pub fn profile_digest_line(ctx: &crate::props::Ctx, i: u64) -> String {
     }
     format!("ok {:016x} ops={} panics={}", d.finish(), ops.len(), panics)
 }
+
+/// C16 part 3b, meant to run under Miri (`cargo +nightly miri run -- miri-c16 <seed> <n>`):
+/// tiny sprites, 2..3 free-running threads over a shared `&AsepriteFile`; every result is
+/// compared with the sequential memo. Miri's own seeded scheduler preempts inside accessors and
+/// reports data races / UB. Exit code 1 (via panic) on any difference.
+pub fn miri_c16(seed: u64, n: u64) {
+    for i in 0..n {
+        let rseed = crate::rng::mix(&[seed, crate::rng::tag("miri"), i]);
+        let mut r = Rng::new(rseed);
+        let spec = crate::spec::gen_tiny_spec(&mut r);
+        let bytes = crate::spec::encode(
+            &spec,
+            &crate::spec::EncOpts {
+                seed: rseed,
+                neutral: false,
+            },
+        );
+        let f = AsepriteFile::read(&bytes[..]).expect("tiny sprite must load");
+        let costs = Costs {
+            render: 0,
+            debug: 0,
+            cap: 1 << 20,
+        };
+        let (nl, nf) = (f.num_layers(), f.num_frames());
+        let mut ops = vec![Op::Meta, Op::Palette, Op::Tilesets, Op::ExtFiles, Op::Tags];
+        for fr in 0..nf {
+            ops.push(Op::FrameImage(fr));
+            for l in 0..nl {
+                ops.push(Op::CelImage(fr, l));
+                ops.push(Op::CelInfo(fr, l));
+                ops.push(Op::Tilemap(l, fr));
+            }
+        }
+        for l in 0..nl {
+            ops.push(Op::LayerInfo(l));
+            ops.push(Op::VisibleChain(l));
+        }
+        ops.push(Op::TilesetImage(0));
+        ops.push(Op::TileImage(0, 1));
+        ops.push(Op::TilemapSweep(0, 0));
+        ops.push(Op::TilemapTile(0, 0, 0x8000_0000, 1));
+        r.shuffle(&mut ops);
+        ops.truncate(10);
+        let memo: Vec<Out> = ops.iter().map(|op| exec_out(&f, op, &costs)).collect();
+        let t = 2 + r.usize_below(2);
+        let fr = &f;
+        let opsr = &ops;
+        let memor = &memo;
+        let costsr = &costs;
+        std::thread::scope(|s| {
+            for k in 0..t {
+                s.spawn(move || {
+                    // each thread walks the op list from a different rotation
+                    for j in 0..opsr.len() {
+                        let idx = (j + k * 3) % opsr.len();
+                        let o = exec_out(fr, &opsr[idx], costsr);
+                        assert!(
+                            o == memor[idx],
+                            "C16 violation under Miri: thread {} op {:?}: sequential {} concurrent {} (VERIF_SEED={} case={})",
+                            k,
+                            opsr[idx],
+                            memor[idx].show(),
+                            o.show(),
+                            seed,
+                            i
+                        );
+                    }
+                });
+            }
+        });
+        // second load, equal observations
+        let g = AsepriteFile::read(&bytes[..]).expect("tiny sprite must load twice");
+        for (idx, op) in ops.iter().enumerate() {
+            if matches!(op, Op::DebugFmt) {
+                continue;
+            }
+            let o = exec_out(&g, op, &costs);
+            assert!(o == memo[idx], "C16 violation under Miri: second load differs on {:?}", op);
+        }
+    }
+    println!("miri-c16 ok seed={} cases={}", seed, n);
+}
